@@ -257,6 +257,8 @@ func fmtInt(w io.Writer, v interface{}, base, padLen int) {
 		uval = uint64(v.(uint32))
 	case uint64:
 		uval = v.(uint64)
+	case uint:
+		uval = uint64(v.(uint))
 	case uintptr:
 		uval = uint64(v.(uintptr))
 	case int8:
